@@ -242,6 +242,9 @@ def layout_rules(rep, r5, m, clear_only=False):
                 op = n["opcode"]
                 if op == "<<":
                     a = self.ev(kids(n)[0], pos, env)
+                    sh = int_value(strip(kids(n)[1], casts=True))
+                    if a is not None and sh is not None and 0 <= sh < 16:
+                        return a.scale(1 << sh)               # a size doubled: x << 1
                     e = self.exponent(kids(n)[1], pos, env)
                     if a is None or e is None or not a.is_const():
                         return None
@@ -287,6 +290,9 @@ def layout_rules(rep, r5, m, clear_only=False):
                 op = n["opcode"]
                 if op == "<<":
                     a = self._ev_in(cf, kids(n)[0], env2)
+                    sh = int_value(strip(kids(n)[1], casts=True))
+                    if a is not None and sh is not None and 0 <= sh < 16:
+                        return a.scale(1 << sh)
                     e0 = strip(kids(n)[1], casts=True)
                     e = env2.get(e0["ref"]["id"], (None, None))[1] if e0["kind"] == "DeclRefExpr" else None
                     if a is None or e is None or not a.is_const():
@@ -651,6 +657,17 @@ def rules(rep, m):
         base = cx.canon(kids(strip(lhs, casts=True))[0])
         hs = [cx.canon(r) for f2, l, r, k, n in inv.field_writers(m, "cmi_hashheap", "hash_size") if f2 is f]
         r4.instance("%s writes heap_size = %s, hash_size = %s" % (f.name, cx.canon(rhs), hs))
+        # values spelled through a local or a parameter that the same function stores into the fields are the fields
+        hs_raw = cx.canon(rhs)
+        exps = [cx.canon(r) for f2, l, r, k, n in inv.field_writers(m, "cmi_hashheap", "heap_exp_cur") if f2 is f and r is not None]
+        def as_fields(t):
+            if hs_raw != base + "->heap_size" and len(hs_raw) > 3:
+                t = t.replace(hs_raw, base + "->heap_size")
+            for e_ in exps:
+                if re.fullmatch(r"\w+", e_):
+                    t = re.sub(r"(?<![\w>.])%s(?!\w)" % re.escape(e_), base + "->heap_exp_cur", t)
+            return t
+        hs = [as_fields(h) for h in hs]
         hsz = re.escape(base) + "->heap_size"
         ok = any(re.fullmatch(r"\((2 \* %s|%s \* 2|%s << 1|%s \+ %s)\)" % (hsz, hsz, hsz, hsz, hsz), h) for h in hs)
         if not ok:
@@ -659,7 +676,11 @@ def rules(rep, m):
             r4.fail()
         else:
             r4.ok()
-        if not re.fullmatch(r"\(1 << %s->heap_exp_cur\)" % re.escape(base), cx.canon(rhs)):
+        hs_norm = hs_raw
+        for e_ in exps:
+            if re.fullmatch(r"\w+", e_):
+                hs_norm = re.sub(r"(?<![\w>.])%s(?!\w)" % re.escape(e_), base + "->heap_exp_cur", hs_norm)
+        if not re.fullmatch(r"\(1 << %s->heap_exp_cur\)" % re.escape(base), hs_norm):
             rep.finding(r4, f.name, "heap-size-power", "heap_size = %s is not 1 << heap_exp_cur (hash function "
                         "shifts by heap_exp_cur + 1)" % cx.canon(rhs), where=m.rel(loc(node)))
             r4.fail()
